@@ -507,6 +507,114 @@ func onlyTelemetry(v ssa.Value, seen map[ssa.Value]bool) bool {
 	return true
 }
 
+// lessComparesWholeElements: the comparison function handed to sort.Slice / slices.SortFunc returns
+// e_i < e_j (or Compare(e_i, e_j) < 0 …) where e_i and e_j are the two elements themselves — loads of
+// s[i] and s[j] for sort.Slice, the two parameters for slices.SortFunc — of an ordered basic type, a
+// string or a byte slice. Anything else (a field, a method result, a derived key) is a projection.
+func lessComparesWholeElements(v ssa.Value) bool {
+	var fn *ssa.Function
+	switch y := v.(type) {
+	case *ssa.MakeClosure:
+		fn, _ = y.Fn.(*ssa.Function)
+	case *ssa.Function:
+		fn = y
+	}
+	if fn == nil || len(fn.Blocks) != 1 || len(fn.Params) != 2 {
+		return false
+	}
+	ret, ok := fn.Blocks[0].Instrs[len(fn.Blocks[0].Instrs)-1].(*ssa.Return)
+	if !ok || len(ret.Results) != 1 {
+		return false
+	}
+	// which parameter an operand stands for (1, 2) — 0 when it is not a whole element
+	elem := func(o ssa.Value) int {
+		for i := 0; i < 3; i++ {
+			if c, isC := o.(*ssa.Convert); isC {
+				o = c.X
+				continue
+			}
+			break
+		}
+		if p, isP := o.(*ssa.Parameter); isP { // slices.SortFunc(a, b T)
+			if _, isInt := p.Type().Underlying().(*types.Basic); isInt && p.Type().Underlying().(*types.Basic).Info()&types.IsInteger != 0 {
+				// could still be the element of a []int handed to SortFunc; index parameters of
+				// sort.Slice never reach here as operands of the comparison
+			}
+			for k, q := range fn.Params {
+				if q == p {
+					return k + 1
+				}
+			}
+			return 0
+		}
+		ld, isLoad := o.(*ssa.UnOp)
+		if !isLoad || ld.Op != token.MUL {
+			return 0
+		}
+		ia, isIA := ld.X.(*ssa.IndexAddr)
+		if !isIA {
+			return 0
+		}
+		for k, q := range fn.Params {
+			if ia.Index == ssa.Value(q) {
+				return k + 1
+			}
+		}
+		return 0
+	}
+	isSortSlice := false // sort.Slice less takes (i, j int): its parameters are indices, never elements
+	if b, isB := fn.Params[0].Type().Underlying().(*types.Basic); isB && b.Kind() == types.Int {
+		isSortSlice = true
+	}
+	whole := func(a, b ssa.Value) bool {
+		ea, eb := elem(a), elem(b)
+		if ea == 0 || eb == 0 || ea == eb {
+			return false
+		}
+		if isSortSlice {
+			if _, isP := a.(*ssa.Parameter); isP {
+				return false
+			}
+			if _, isP := b.(*ssa.Parameter); isP {
+				return false
+			}
+		}
+		return true
+	}
+	res := ret.Results[0]
+	if bo, isBO := res.(*ssa.BinOp); isBO {
+		switch bo.Op {
+		case token.LSS, token.GTR, token.LEQ, token.GEQ:
+		default:
+			return false
+		}
+		if whole(bo.X, bo.Y) {
+			return true
+		}
+		// Compare(e_i, e_j) <op> 0
+		call, isCall := bo.X.(*ssa.Call)
+		if !isCall {
+			return false
+		}
+		if k, isK := constInt(bo.Y); !isK || k != 0 {
+			return false
+		}
+		pkg, name := calleePkgName(&call.Call)
+		if !((pkg == "strings" || pkg == "bytes" || pkg == "cmp") && name == "Compare") || len(call.Call.Args) != 2 {
+			return false
+		}
+		return whole(call.Call.Args[0], call.Call.Args[1])
+	}
+	// slices.SortFunc(s, cmp.Compare-like): return Compare(a, b)
+	if call, isCall := res.(*ssa.Call); isCall && !isSortSlice {
+		pkg, name := calleePkgName(&call.Call)
+		if (pkg == "strings" || pkg == "bytes" || pkg == "cmp") && name == "Compare" && len(call.Call.Args) == 2 {
+			return whole(call.Call.Args[0], call.Call.Args[1])
+		}
+	}
+	return false
+}
+
 // collectThenSort recognises a map range whose body only builds local slices of
 // keys (element stores or append) and where every later use of those slices is
 // dominated by a sort.* / slices.Sort* call on them.
@@ -649,6 +757,17 @@ func collectThenSort(r *ssa.Range) (bool, string) {
 			pkg, name := calleePkgName(&ci.Call)
 			isSort := (pkg == "sort" && (name == "Slice" || name == "SliceStable" || name == "Strings" || name == "Ints" || name == "Sort" || name == "Stable")) || (pkg == "slices" && strings.HasPrefix(name, "Sort"))
 			if isSort && len(ci.Call.Args) > 0 && family[ci.Call.Args[0]] {
+				// the order must be total on whole elements: two elements that compare equal must be
+				// identical, otherwise ties keep the (random) map order. sort.Strings / sort.Ints /
+				// slices.Sort order the elements themselves; a hand-written less must do the same.
+				if pkg == "sort" && (name == "Sort" || name == "Stable") {
+					return false, "sorted through a hand-written sort.Interface whose order cannot be shown total"
+				}
+				if (pkg == "sort" && (name == "Slice" || name == "SliceStable")) || (pkg == "slices" && strings.Contains(name, "Func")) {
+					if len(ci.Call.Args) < 2 || !lessComparesWholeElements(ci.Call.Args[1]) {
+						return false, "the sort compares a projection of the collected elements, not the elements themselves: elements that tie keep the random map order"
+					}
+				}
 				sorts = append(sorts, in)
 			}
 		}
